@@ -21,7 +21,14 @@ from pyvc import extract  # noqa: E402
 from pyvc.solve import Verdict, discharge, solve_one, to_smt2  # noqa: E402
 from pyvc.verify import verify_function  # noqa: E402
 
+import re
+
 FLOOR_FILE = os.path.join(ROOT, "obligation_floor.json")
+
+
+def norm(name: str) -> str:
+    """Obligation identity that survives harmless edits: statement ordinals and line numbers are dropped."""
+    return re.sub(r"@[A-Za-z]+#\d+|@L?\d+", "", name)
 KNOWN_FILE = os.path.join(ROOT, "known_findings.json")
 
 
@@ -33,25 +40,44 @@ def load_json(path, default):
         return default
 
 
-def run_concrete(kind: str, module: str, func: str, payload: dict, timeout=300) -> dict:
-    """Run a concrete harness function in a child interpreter against /repo."""
+def start_concrete(kind: str, module: str, func: str, payload: dict):
+    """Start a concrete harness function in a child interpreter against /repo (non-blocking, no threads:
+    worker pools are forked later and must not inherit running threads)."""
     env = dict(os.environ)
     env["PYTHONPATH"] = extract.REPO + os.pathsep + ROOT
     env["PYVC_REPO"] = extract.REPO
-    code = (
-        "import sys, json, os\n"
-        "from pyvc.harness import run_entry\n"
-        "run_entry()\n"
-    )
+    code = "from pyvc.harness import run_entry\nrun_entry()\n"
     req = json.dumps({"kind": kind, "module": module, "func": func, "payload": payload})
+    import tempfile
+
+    fin = tempfile.TemporaryFile("w+")
+    fin.write(req)
+    fin.seek(0)
+    fout = tempfile.TemporaryFile("w+")
+    p = subprocess.Popen([sys.executable, "-u", "-c", code], stdin=fin, stdout=fout, stderr=subprocess.STDOUT, text=True, env=env, cwd=ROOT)
+    p._fout = fout
+    p._fin = fin
+    return p
+
+
+def finish_concrete(p, timeout=1800) -> dict:
     try:
-        p = subprocess.run([sys.executable, "-u", "-c", code], input=req, capture_output=True, text=True, env=env, timeout=timeout, cwd=ROOT)
+        p.wait(timeout=timeout)
     except subprocess.TimeoutExpired:
+        p.kill()
         return {"status": "error", "detail": "harness timeout"}
-    for line in reversed(p.stdout.splitlines()):
+    p._fout.seek(0)
+    out = p._fout.read()
+    p._fout.close()
+    p._fin.close()
+    for line in reversed(out.splitlines()):
         if line.startswith("RESULT "):
             return json.loads(line[7:])
-    return {"status": "error", "detail": (p.stdout[-1500:] + p.stderr[-1500:])}
+    return {"status": "error", "detail": out[-3000:]}
+
+
+def run_concrete(kind: str, module: str, func: str, payload: dict, timeout=300) -> dict:
+    return finish_concrete(start_concrete(kind, module, func, payload), timeout)
 
 
 class PropertyRun:
@@ -85,18 +111,14 @@ class PropertyRun:
         pinfo = self.reg.properties.get(self.pid, {})
         funcs = [q for q, c in self.reg.contracts.items() if self.pid in c.props and not c.trusted]
         timeout_ms = 10000 if self.tier == "quick" else 60000
-        from concurrent.futures import ThreadPoolExecutor
-
-        pool = ThreadPoolExecutor(max_workers=6)
-        bfuts = [(b, pool.submit(run_concrete, "bounded", b["module"], b["func"], {"tier": self.tier, "seed": self.seed}, b.get("timeout", 1800))) for b in pinfo.get("bounded", [])]
+        bfuts = [(b, start_concrete("bounded", b["module"], b["func"], {"tier": self.tier, "seed": self.seed})) for b in pinfo.get("bounded", [])]
         for q in funcs:
             self.verify_one(q, floor, known, timeout_ms)
         for q, c in self.reg.contracts.items():
             if c.trusted and (self.pid in c.props or any(q in (f.get("callees") or []) for f in self.functions)):
                 self.trusted.add(f"trusted contract: {q} ({c.note or c.path})")
-        for b, fut in bfuts:
-            self.run_bounded(b, fut.result())
-        pool.shutdown()
+        for b, proc in bfuts:
+            self.run_bounded(b, finish_concrete(proc, b.get("timeout", 1800)))
         self.replay_known(known)
         if not funcs and not pinfo.get("bounded"):
             self.checker_errors.append("no function under contract for this property")
@@ -168,9 +190,15 @@ class PropertyRun:
                 continue
             # retry the failing instances alone with a 6x budget before deciding
             still = []
+            self._retries = getattr(self, "_retries", 0)
             for v in bad:
+                if self._retries >= 6:
+                    # enough evidence that this run has failing obligations; do not spend minutes per instance
+                    still.append(([o for o in ob_by_name[name] if o.path_id == v.path_id][0], v))
+                    continue
+                self._retries += 1
                 ob = [o for o in ob_by_name[name] if o.path_id == v.path_id][0]
-                v2 = solve_one((ob.name, to_smt2(ob), timeout_ms * 6, ob.inputs, False, ob.kind, ob.path_id, ob.line, True))
+                v2 = solve_one((ob.name, to_smt2(ob), timeout_ms * 3, ob.inputs, False, ob.kind, ob.path_id, ob.line, False))
                 self.solver_time[v2.backend] = self.solver_time.get(v2.backend, 0.0) + v2.seconds
                 if v2.status != "unsat":
                     still.append((ob, v2))
@@ -189,7 +217,7 @@ class PropertyRun:
                     break
         # floor
         if base:
-            missing = sorted(set(base.get("names", [])) - set(by_name))
+            missing = sorted(set(base.get("names", [])) - {norm(n) for n in by_name})
             if missing:
                 # obligations that existed on the committed tree are no longer generated
                 self.checker_errors.append(f"{q}: {len(missing)} baseline obligations not generated (e.g. {missing[0]})")
@@ -197,7 +225,7 @@ class PropertyRun:
 
     def failed_obligation(self, q: str, name: str, still, base: dict):
         """An obligation is refuted or unknown after retry."""
-        was_ok = name in set(base.get("names_ok", []))
+        was_ok = norm(name) in set(base.get("names_ok", []))
         ob, v = still[0]
         detail = {"obligation": name, "function": q, "status": v.status, "backend": v.backend, "solver_detail": v.detail, "model": v.model, "line": ob.line}
         if self.is_known(name):
@@ -322,7 +350,8 @@ def cmd_floor(reg, pids):
         for v in vs:
             by.setdefault(v.name, []).append(v)
         ok = sorted(n for n, l in by.items() if (any(v.status == "unsat" for v in l) if l[0].cover else all(v.status == "unsat" for v in l)))
-        floor[q] = {"count": len(by), "names": sorted(by), "names_ok": ok, "sha256": fr.sha256}
+        keep = lambda n: not n.startswith(("exc:", "cover:"))  # noqa: E731  (operation-level obligations may come and go with harmless edits)
+        floor[q] = {"count": len(by), "names": sorted({norm(n) for n in by if keep(n)}), "names_ok": sorted({norm(n) for n in ok}), "sha256": fr.sha256}
         print(f"{q}: {len(ok)}/{len(by)} discharged")
     with open(FLOOR_FILE, "w") as f:
         json.dump(floor, f, indent=1, sort_keys=True)
